@@ -129,8 +129,8 @@ def r03_2(ctx, S, prog, crate):
                           if s["k"] == "assign" and s["rv"]["k"] == "use" and s["rv"]["o"]["k"] == "const"]
                 ctx.check(reads == {((nm,), ("sample_size",))} and not consts, "R03.2", ["BenchMode::sample_size", nm + "-own-field"],
                           "%s.sample_size() reads %s" % (nm, sorted(reads)), ss.where(0))
-    im = prog.body("benchmark::BenchContext::initial_mode", crate)
-    if ctx.anchor("R03.2", "BenchContext::initial_mode", 1 if im else 0, 1):
+    imc, im = S.initial_mode_call()
+    if ctx.anchor("R03.2", "initial mode function (the call producing the first BenchMode)", 1 if im else 0, 1):
         # Test iff action.is_test()
         cs = [c for c in im.live_calls() if c.callee == "config::Action::is_test"]
         ok = False
